@@ -119,7 +119,8 @@ theorem microAllS_logrecs_tv (s : RState) (rs : List WalEntry) (h : ∀ r ∈ rs
     simp only [microAllS] at h2
     exact ⟨by rw [h2.1, h1.1], by rw [h2.2, h1.2]⟩
 
-theorem appendOne_logonly (log : List LogEntry) (e : LogEntry) : ∀ r ∈ (appendOne log e).1, IsLogRec r := by
+theorem appendOne_logonly (base : Nat) (log : List LogEntry) (e : LogEntry) :
+    ∀ r ∈ (appendOne base log e).1, IsLogRec r := by
   intro r hr
   unfold appendOne at hr
   split at hr
@@ -132,15 +133,15 @@ theorem appendOne_logonly (log : List LogEntry) (e : LogEntry) : ∀ r ∈ (appe
         · simp at hr
       · simp at hr
 
-theorem appendLoop_logonly (log : List LogEntry) (es : List LogEntry) :
-    ∀ r ∈ (appendLoop log es).1, IsLogRec r := by
+theorem appendLoop_logonly (base : Nat) (log : List LogEntry) (es : List LogEntry) :
+    ∀ r ∈ (appendLoop base log es).1, IsLogRec r := by
   induction es generalizing log with
   | nil => intro r hr; simp [appendLoop] at hr
   | cons e es ih =>
     intro r hr
     simp only [appendLoop, List.mem_append] at hr
     rcases hr with h | h
-    · exact appendOne_logonly log e r h
+    · exact appendOne_logonly base log e r h
     · exact ih _ r h
 
 theorem microAllS_append (s : RState) (a b : List Micro) :
@@ -191,6 +192,9 @@ theorem tv_noop (n n' : Node) (s : RState) (rp : Reply) (hS : TVSync n s)
 theorem tvstep_ok (n : Node) (s : RState) (e : Event) (hS : TVSync n s) : TVStepOk s (step n e) := by
   cases e with
   | startElection => exact tv_elect n s hS
+  | compact i =>
+    simp only [step]
+    exact tv_noop n _ s _ hS rfl rfl
   | voteResponse frm t granted =>
     simp only [step]
     split
@@ -289,8 +293,8 @@ theorem tvstep_ok (n : Node) (s : RState) (e : Event) (hS : TVSync n s) : TVStep
       · rw [microAllS_append, hs1]; exact ⟨by rw [h1]; exact hS1.1, by rw [h2]; exact hS1.2⟩
     split
     · split
-      · have hlo := appendLoop_logonly n1.log (mkEntries prevIdx ents)
-        generalize appendLoop n1.log (mkEntries prevIdx ents) = r at *
+      · have hlo := appendLoop_logonly n1.base n1.log (mkEntries prevIdx ents)
+        generalize appendLoop n1.base n1.log (mkEntries prevIdx ents) = r at *
         have htv := microAllS_logrecs_tv s1 r.1 hlo
         refine ⟨?_, ?_⟩
         · rw [List.append_assoc]
@@ -363,6 +367,7 @@ theorem tvstepFailOld_ok (n : Node) (s : RState) (e : Event) (hS : TVSync n s) :
     · exact tv_noop n n s _ hS rfl rfl
     · exact tvstep_ok n s (.voteResponse frm t granted) hS
   | startPreVote => exact tvstep_ok n s .startPreVote hS
+  | compact i => exact tvstep_ok n s (.compact i) hS
   | preVote t c li lt => exact tvstep_ok n s (.preVote t c li lt) hS
   | preVoteResponse frm t granted =>
     simp only [stepFailOld]
@@ -437,6 +442,7 @@ theorem stepFailOld_no_vote (n : Node) (e : Event) (t c : Nat) : Micro.ackVote t
     simp only [stepFailOld, step]
     (repeat' split) <;> first | exact stepDownOut_no_vote _ _ _ _ | simp
   | startPreVote => simp [stepFailOld, step]
+  | compact i => simp [stepFailOld, step]
   | preVote a b c' d => simp [stepFailOld, step]
   | _ => simp only [stepFailOld] <;> (repeat' split) <;> simp
 
@@ -533,11 +539,11 @@ theorem stepFail_ok (n : Node) (s : RState) (g : Ghost) (e : Event)
       | (apply ackOnly <;> rfl)
       | (-- every entry already held: acknowledged from memory = from the WAL
          have hP1 := P_ackTerm s g n.term hP hle
-         have hP2 : P s (microG (microG g (.ackTerm n.term)) (.ackLog (n.log.filter (fun e => decide (e.index ≤ min (prevIdx + ents.length) n.log.length))))) := by
+         have hP2 : P s (microG (microG g (.ackTerm n.term)) (.ackLog ((n.log.drop n.base).filter (fun e => decide (e.index ≤ min (prevIdx + ents.length) n.log.length))))) := by
            refine P_ackLog _ _ _ hP1 ?_
            intro a ha
            rw [hS.2.2]
-           exact List.mem_map_of_mem (List.mem_filter.mp ha).1
+           exact List.mem_map_of_mem (List.mem_of_mem_drop (List.mem_filter.mp ha).1)
          refine ⟨?_, ?_, hwf⟩
          · show P s g ∧ P s (microG g (.ackTerm n.term)) ∧ P s _
            exact ⟨hP, hP1, hP2⟩
@@ -553,6 +559,7 @@ theorem stepFail_ok (n : Node) (s : RState) (g : Ghost) (e : Event)
     · exact noop_ok n n s g _ hS hwf hsat rfl rfl rfl
     · exact step_ok n s g (.voteResponse frm t granted) hS hwf hsat
   | startPreVote => exact step_ok n s g .startPreVote hS hwf hsat
+  | compact i => exact step_ok n s g (.compact i) hS hwf hsat
   | preVote t c li lt => exact step_ok n s g (.preVote t c li lt) hS hwf hsat
   | preVoteResponse frm t granted =>
     simp only [stepFail, stepFailOld]
